@@ -393,16 +393,24 @@ def _generic(args, cfg, prop, tier, t0, known, open_f, quarantine, run_dir, scra
     fp_files = []
     per_mode = {}
     fuzz_distinct = [0]
+    fuzz_state = {}
     for (w, r) in done:
         mname, k, out, cmd = w
         if modes[mname].get("engine") == "libfuzzer":
             sj = sorted(glob.glob(os.path.join(out, "fuzz-stats-*.json")))
-            if not sj:
-                if r != -9:
-                    broken.append("fuzz worker %s/%d left no statistics (exit %s): %s" % (mname, k, r, open(os.path.join(out, "log.txt"), errors="replace").read()[-500:]))
-                continue
-            st = json.load(open(sj[-1]))
+            if sj:
+                st = json.load(open(sj[-1]))
+            else:   # a sanitizer abort skips the driver's exit handler: the candidate below still counts
+                st = {"evaluations": 0, "parsed": 0, "distinct_nontrivial": 0, "labels": {}, "samples": []}
+                if r in (0, -9) or not glob.glob(os.path.join(out, "crash-*")):
+                    if r != -9:
+                        broken.append("fuzz worker %s/%d left no statistics (exit %s): %s" % (mname, k, r, open(os.path.join(out, "log.txt"), errors="replace").read()[-500:]))
+                    continue
             pm = per_mode.setdefault(mname, {"evaluations": 0, "cases": 0, "labels": {}})
+            fz = fuzz_state.setdefault(mname, {"parsed": 0, "abnormal": 0})
+            fz["parsed"] += st["parsed"]
+            if r not in (0, -9):
+                fz["abnormal"] += 1
             total_eval += st["evaluations"]; total_cases += st["parsed"]
             pm["evaluations"] += st["evaluations"]; pm["cases"] += st["parsed"]
             fuzz_distinct[0] += st["distinct_nontrivial"]
@@ -510,6 +518,10 @@ def _generic(args, cfg, prop, tier, t0, known, open_f, quarantine, run_dir, scra
                 missing.append("%s:%s" % (mname, l))
     if missing and not final:
         broken.append("mandatory classes never generated: " + ", ".join(missing))
+    for mname, fz in fuzz_state.items():
+        # a fuzz mode that ran nothing is a broken check - unless its workers stopped on a candidate (reported above or discarded as flaky)
+        if fz["parsed"] == 0 and not fz["abnormal"] and not final:
+            broken.append("fuzz mode %s ran no input" % mname)
 
     # ---------------- evidence
     ev = {
